@@ -37,6 +37,7 @@ type c14Call struct {
 type c14Case struct {
 	Kind           string    `json:"kind"` // server | client | stream
 	CustomLimiter  bool      `json:"custom_limiter"`
+	StreamKind     int       `json:"stream_kind,omitempty"`   // stream: the RPC's kind as declared in grpc.StreamServerInfo: 0 none set, 1 server streaming, 2 client streaming, 3 bidirectional (every message operation is gated whatever the kind)
 	Chained        bool      `json:"chained,omitempty"`       // stream: the interceptor under test runs inside another (all-default) stream interceptor of the package, i.e. it is handed an already wrapped stream
 	StreamCustom   string    `json:"stream_custom,omitempty"` // stream + custom_limiter: "" both limiters configured | recv | send: only that one (the other stays the default)
 	CustomClass    bool      `json:"custom_classifier"`
@@ -56,6 +57,7 @@ func genC14(t *rapid.T) c14Case {
 	}
 	if c.Kind == "stream" {
 		c.Chained = rapid.IntRange(0, 3).Draw(t, "chained") == 0
+		c.StreamKind = rapid.IntRange(0, 3).Draw(t, "streamKind")
 	}
 	if c.Kind == "stream" && c.CustomLimiter {
 		c.StreamCustom = rapid.SampledFrom([]string{"", "", "recv", "send"}).Draw(t, "streamCustom")
@@ -219,7 +221,7 @@ func runC14(_ *testing.T, c c14Case) (out kit.Outcome) {
 		liveSS    grpc.ServerStream // the wrapped stream of the handler invocation in progress (several operations on one stream)
 		liveInner *c14Stream
 	)
-	info := &grpc.StreamServerInfo{FullMethod: "/svc/S"}
+	info := &grpc.StreamServerInfo{FullMethod: "/svc/S", IsServerStream: c.StreamKind&1 != 0, IsClientStream: c.StreamKind&2 != 0}
 	// runStream invokes the interceptor under test - directly, or (chained) from inside the handler of an outer,
 	// all-default stream interceptor of the same package, which hands it an already wrapped stream.
 	runStream := func(inner *c14Stream, h grpc.StreamHandler) error {
